@@ -18,7 +18,7 @@ from ..gen import sheets as G
 from ..gen import sugar as S
 
 MANIFEST = dict(
-    text="Proof: (1) Lean theorem sugar_equiv_of_cert (validated bisimulation certificate ⇒ equal traces for every contact input sequence, full observation level) applied by the driver to the REAL compiler's output for each sugared sheet and for its desugared twin; (2) Lean model of the parser's block structure (Rpft/Sugar.lean) with events_desugar: for every sheet tree and context the parser performs the same row events on a sheet and on its desugared form (loops unrolled in order with loop/index variables bound, false include_if rows and blocks dropped without being evaluated, loop variables gone after end_for, nesting composes); (3) the block clause on the Lean compiler model for all machine states: block_edge_group (an edge naming a block changes nothing but node contents and connects exactly the nodes the NodeGroup recursion reaches), block_edge_frame / block_edge_connects_reach (connected and hard exits keep their destination, loose exits of reached nodes lead to the edge's destination), block_edge_inside and the kernel-checked F-C03-a witness block_edge_reaches_outside. (4) Flat sheets (Rpft/SugarFlat.lean, Props/C03_Flat.lean): the real parser works on the flat row list with an iterator, bookmarks by depth and a mutable context; that machine is modelled line by line (runFlat) and proved equal, for EVERY flat sheet, context and interface satisfying FlatLaws (row kinds not templated, loop and index variable distinct, the context is a dictionary), to the tree reading of the sheet's scan tree (flat_eq_scan_tree: same events, same order, same first error also on ill-nested sheets, final context = initial context, the model's fuel never runs out), hence to Sugar.evItems of the parsed tree on well-nested quiet sheets (flat_eq_tree) and to events_desugar on flat sheets (flat_events_desugar); parseTree (the Lean tree_of_rows) and flatten are inverse (parse_flatten, flatten_parse) and parseTree agrees with the C15 block machine (parse_fault_is_cli_fault). (5) on the Lean compiler model (Rpft/Compile.lean, tied to the real FlowParser in C01) insert_twin_traces_partial (Props/C03_Insert.lean): for ALL sheets around an insert_as_block row and all templates of the covered class (the template starts with one start-attached row creating a node, no other start row and no _nodeId in the template, insert row outside blocks, the rest of the sheet names neither the block nor a template row and does not continue from it with a blank from) the row and its twin begin_block + template rows + end_block compile to the same flow up to an injective renaming of identifiers (simulation of the two runs of the compiler machine), hence to equal traces at every observation level (insert_trace_rename: traces are invariant under injective renaming). Tie: real compiler on generated sugared sheets vs twins (nesting ≤ 3, 0..3 iterations, string/range/native lists, index variables, include_if literals and expressions, excluded blocks with unevaluable content, inserted templates with data rows and arguments).",
+    text="Proof: (1) Lean theorem sugar_equiv_of_cert (validated bisimulation certificate ⇒ equal traces for every contact input sequence, full observation level) applied by the driver to the REAL compiler's output for each sugared sheet and for its desugared twin; (2) Lean model of the parser's block structure (Rpft/Sugar.lean) with events_desugar: for every sheet tree and context the parser performs the same row events on a sheet and on its desugared form (loops unrolled in order with loop/index variables bound, false include_if rows and blocks dropped without being evaluated, loop variables gone after end_for, nesting composes); (3) the block clause on the Lean compiler model for all machine states: block_edge_group (an edge naming a block changes nothing but node contents and connects exactly the nodes the NodeGroup recursion reaches), block_edge_frame / block_edge_connects_reach (connected and hard exits keep their destination, loose exits of reached nodes lead to the edge's destination), block_edge_inside and the kernel-checked F-C03-a witness block_edge_reaches_outside. (4) Flat sheets (Rpft/SugarFlat.lean, Props/C03_Flat.lean): the real parser works on the flat row list with an iterator, bookmarks by depth and a mutable context; that machine is modelled line by line (runFlat) and proved equal, for EVERY flat sheet, context and interface satisfying FlatLaws (row kinds not templated, loop and index variable distinct, the context is a dictionary), to the tree reading of the sheet's scan tree (flat_eq_scan_tree: same events, same order, same first error also on ill-nested sheets, final context = initial context, the model's fuel never runs out), hence to Sugar.evItems of the parsed tree on well-nested quiet sheets (flat_eq_tree) and to events_desugar on flat sheets (flat_events_desugar); parseTree (the Lean tree_of_rows) and flatten are inverse (parse_flatten, flatten_parse) and parseTree agrees with the C15 block machine (parse_fault_is_cli_fault). (5) on the Lean compiler model (Rpft/Compile.lean, tied to the real FlowParser in C01), Props/C03_Insert.lean: for ALL sheets around an insert_as_block row and all templates that start with one start-attached row creating a node (no other start row, no _nodeId in the template, the rest of the sheet not naming a template row) the row and its twin begin_block + template rows + end_block compile to the same flow up to an injective renaming of identifiers (simulation of the two runs of the compiler machine), hence to equal traces at every observation level (insert_trace_rename: traces are invariant under injective renaming) — both when the rest of the sheet does not continue from the block (insert_twin_traces_partial) and when it DOES (blank from right after the block, or naming it, any number of rows, the insert row at any block depth: insert_twin_continues_traces_partial under the run-level condition InsertTight that no row leading into the block has an unconnected exit left, insert_twin_follows_traces_partial under the event-level condition that the insert row directly follows a plain action row it is attached to unconditionally = the shape of the tie's twin workbooks, repeated insertions included; no loose_exit row afterwards); hard exits of the template stay exits without destination. Tie: real compiler on generated sugared sheets vs twins (nesting ≤ 3, 0..3 iterations, string/range/native lists, index variables, include_if literals and expressions, excluded blocks with unevaluable content, inserted templates with data rows and arguments).",
     ref="§5 C03",
     note="Trusts: Lean kernel; certificate search untrusted; the harness desugarer uses the repo's own template engine to substitute loop variables (the meaning of {{v}} is not C03's subject); NodeGroup exit semantics: proved on the Lean compiler model (tied to the real parser by the exact comparison of C01) and exercised on the real code by the with/without-edge oracle. Known findings: F-C03-a (edge naming a block also connects exits of rows leading into it).",
     technique="Lean 4 proof (certificate soundness; structural induction on the block tree) + metamorphic sugared-vs-desugared check on the real compiler",
@@ -418,7 +418,7 @@ def run(ck: core.Check):
     )
     ck.assumptions = ["the desugarer substitutes loop variables with the repo's own template engine (cell level)"]
     ck.partial_gap = ["the block clause (an edge naming a block leaves from every still-unconnected ordinary exit, never from a hard exit) is decided on the real compiler by the with/without-edge oracle; the NodeGroup machinery is in the Lean compiler model (Rpft/Compile.lean, tied in C01) and proved about it for ALL machine states: node level (block_edge_exits: exactly the exits leading nowhere are re-targeted, hard exits and connected exits never; block_edge_consumes_loose) and group level (connect_loose_group / block_edge_group: nothing but node contents changes, a node is replaced by its connected version exactly when the recursion reaches it — Compile.Reach — and every other node is untouched; block_edge_frame; block_edge_connects_reach; block_edge_inside: only nodes of the block's subtree when no begin row leaks; block_edge_reaches_outside: kernel-checked witness of finding F-C03-a). The statements are about successful runs (the model fails when its fuel runs out); that the parser's fuel 2·|groups|+8 always suffices is not proved",
-                      "insert_as_block: proved on the Lean compiler model for sheets that do not continue from the inserted block (insert_twin_traces_partial; hypotheses shown needed by needs_post_avoids_block = F-C03-a seen from the insert row, needs_single_start, needs_ids_apart); the case exercised by the twin workbooks — the sheet continues from the block while no row leading into it has an unconnected exit — is compared on the real code only and stays open in the model as insert_twin_full (also open: insert rows inside blocks, _nodeIds in the template, one-side-compiles direction)"]
+                      "insert_as_block: proved on the Lean compiler model for templates without _nodeId, whether or not the sheet continues from the inserted block (the continuing case at any block depth, the not-continuing case for insert rows outside blocks) (insert_twin_traces_partial, insert_twin_continues_traces_partial, insert_twin_follows_traces_partial; hypotheses shown needed by needs_post_avoids_block / needs_tight = F-C03-a seen from the insert row, needs_no_loose_exit_after, needs_single_start, needs_ids_apart); open in the model as insert_twin_full: _nodeIds in the template, not-tight insert rows inside blocks or loops, event-level tightness beyond 'directly follows a plain action row', invariance under renaming the template's row ids apart (the tie's twin renames them, the model's twin keeps them), the one-side-compiles direction"]
     drv = core.Driver()
     # known-finding stream (deterministic): F-C03-a
     nprobe, bviol, leak = block_exit_oracle(F_C03_A)
